@@ -38,9 +38,11 @@ impl StateMachine<'_> {
 // like these:
 // " src/delta.rs  | 14 ++++++++++----"
 // " src/config.rs |  2 ++"
+// The whole line must have this shape (the +/- may be colored): other indented text containing
+// " | <number> " (a line of a commit message, say) is not a diffstat line.
 lazy_static! {
     static ref DIFF_STAT_LINE_REGEX: Regex =
-        Regex::new(r" ([^\| ][^\|]+[^\| ]) +(\| +[0-9]+ .+)").unwrap();
+        Regex::new(r"^ ([^\| ][^\|]+[^\| ]) +(\| +[0-9]+ (?:\x1b\[[0-9;]*m|[-+])+)$").unwrap();
 }
 
 pub fn relativize_path_in_diff_stat_line(
